@@ -1,3 +1,4 @@
 -- root of the library: every property module
 import TransportVerif.Props.C04
 import TransportVerif.Props.C05
+import TransportVerif.Props.C16
